@@ -62,6 +62,8 @@ def _val_in(v):
         return {"attributes": inner}
     if isinstance(v, str) and v.lstrip("-").isdigit():
         return int(v)
+    if v == "None":
+        return None
     return v
 
 
@@ -245,7 +247,11 @@ class Binding:
             if op["hasmd"]:
                 kw["metadata"] = md_in(op["md"])
             k = op["k"]
-            if kind in ("hg", "dir"):
+            if kind == "dir" and self.rng.random() < 0.12:
+                # a source / target set handed over as another collection of the same nodes (the class accepts any iterable)
+                e = self.api_edge(k)
+                obj.add_edge(tuple(self.rng.choice([list, set, frozenset, tuple])(side) for side in e), **kw)
+            elif kind in ("hg", "dir"):
                 obj.add_edge(self.api_edge(k), **kw)
             elif kind == "temp":
                 obj.add_edge(self.api_edge(k), self._time(k, op.get("bad", "")), **kw)
